@@ -23,10 +23,11 @@ type State struct {
 	pc     *T
 	dead   bool
 	scopes map[int]bool // loop-body instances this state has passed through (lineage)
+	retPos token.Pos    // for an exit state: position of the return statement that produced it
 }
 
 func (s *State) clone() *State {
-	n := &State{env: make(map[string]*T, len(s.env)), pc: s.pc, dead: s.dead}
+	n := &State{env: make(map[string]*T, len(s.env)), pc: s.pc, dead: s.dead, retPos: s.retPos}
 	for k, v := range s.env {
 		n.env[k] = v
 	}
